@@ -95,7 +95,19 @@ def val_equal(a, b, rel=Fraction(1, 10**9)):
     if "n" in a and "log" in b:
         return log_close(b, q(a))
     if "log" in a and "log" in b:
-        return a == b
+        if a == b:
+            return True
+        # two interpolations that denote the same number (`4.0 2ilog 32` re-compressed as `2. 3ilog 32`):
+        # x = a1^(p1) b1^(q1) = a2^(p2) b2^(q2) with rational exponents; compare exactly after raising both to the
+        # common power (n1+1)(n2+1)
+        (a1n, a1d), (b1n, b1d), k1, n1 = a["log"]
+        (a2n, a2d), (b2n, b2d), k2, n2 = b["log"]
+        A1, B1, A2, B2 = Fraction(a1n, a1d), Fraction(b1n, b1d), Fraction(a2n, a2d), Fraction(b2n, b2d)
+        if min(A1, B1, A2, B2) <= 0:
+            return False
+        lhs = (A1 ** (n1 + 1 - k1) * B1**k1) ** (n2 + 1)
+        rhs = (A2 ** (n2 + 1 - k2) * B2**k2) ** (n1 + 1)
+        return abs(lhs - rhs) <= Fraction(1, 10**8) * (n1 + 1) * (n2 + 1) * max(lhs, rhs)
     if "w" in a and "w" in b:
         return a["w"].lower() == b["w"].lower()
     return False
